@@ -127,6 +127,7 @@ def run(ctx):
             compare(ctx, viol, name, ref[name], obs[name], max(5e-5, 60 * ulp) * (30 if name in ("phi", "psi", "chi1", "angles") else 1), rp, "rigid-generic")
 
     # ---- periodic systems: per-atom lattice shifts and whole-system translation
+    collected = []
     for k in range(ctx.n(12, 100)):
         kind, box = cells(rng)
         w = width(box)
@@ -166,6 +167,7 @@ def run(ctx):
         trip = np.array([(3 * i + 1, 3 * i, 3 * i + 2) for i in range(n // 3)])
         quad = np.array([(3 * i + 1, 3 * i, 3 * i + 2, (3 * i + 3) % n) for i in range(n // 3)])
         d1 = md.compute_distances(t, pairs); d2 = md.compute_distances(t2, pairs)
+        collected.append((kind, t, t2, w, rp["transform"]))
         # minimum-image observables are only defined below half the smallest width
         ok = d1[0] < 0.5 * w - 1e-3
         tol = 5e-5
@@ -212,6 +214,34 @@ def run(ctx):
         okc = c1[0] < 0.5 * w - 1e-3
         if np.abs(c1[0][okc] - c2[0][okc]).max(initial=0) > tol:
             viol("lattice|contacts", "compute_contacts(periodic=True) changes by %.3g under a %s" % (np.abs(c1[0][okc] - c2[0][okc]).max(), rp["transform"]), rp)
+    # ---- the same systems as frames of ONE trajectory whose cell changes shape from frame to frame (a deforming cell; runs in different
+    # cells joined), a rectangular frame first: the invariance must hold frame by frame, and a frame inside the trajectory gives what it gives alone
+    if len(collected) >= 2:
+        collected.sort(key=lambda c: 0 if c[0] in ("cubic", "ortho") else 1)
+        for rev in (False, True):
+            cs = collected[::-1] if rev else collected
+            T = md.join([c[1] for c in cs], check_topology=False); T2 = md.join([c[2] for c in cs], check_topology=False)
+            n = T.n_atoms
+            allp = np.array([(i, j) for i in range(n) for j in range(i + 1, n)])
+            trip = np.array([(3 * i + 1, 3 * i, 3 * i + 2) for i in range(n // 3)])
+            D, D2 = md.compute_distances(T, allp), md.compute_distances(T2, allp)
+            A, A2 = md.compute_angles(T, trip), md.compute_angles(T2, trip)
+            C, C2 = (md.compute_contacts(x, contacts=[[0, 1], [2, 5], [3, 7]], scheme="closest", periodic=True)[0] for x in (T, T2))
+            for f, c in enumerate(cs):
+                alone = md.compute_distances(c[1], allp)[0]
+                ok = alone < 0.5 * c[3] - 1e-3
+                rp = dict(transform="%s; frame %d of a %d-frame trajectory with per-frame cells (first frame %s)" % (c[4], f, len(cs), cs[0][0]))
+                ctx.case(None, ("varying-cell", rev, f)); ctx.count("frames of trajectories whose cell changes shape")
+                if np.abs(D[f][ok] - D2[f][ok]).max(initial=0) > 5e-5:
+                    viol("lattice|distances|varying-cell", "compute_distances changes by %.3g under a %s" % (np.abs(D[f][ok] - D2[f][ok]).max(), rp["transform"]), rp)
+                if np.abs(D[f][ok] - alone[ok]).max(initial=0) > 5e-6:
+                    viol("lattice|distances|varying-cell-frame-alone", "compute_distances gives %.6g for a frame inside a trajectory whose cell changes shape, %.6g for the same frame alone" % (
+                        D[f][ok][np.argmax(np.abs(D[f][ok] - alone[ok]))], alone[ok][np.argmax(np.abs(D[f][ok] - alone[ok]))]), rp)
+                if np.abs(A[f] - A2[f]).max() > 2e-3:
+                    viol("lattice|angles|varying-cell", "compute_angles changes by %.3g under a %s" % (np.abs(A[f] - A2[f]).max(), rp["transform"]), rp)
+                okc = C[f] < 0.5 * c[3] - 1e-3
+                if np.abs(C[f][okc] - C2[f][okc]).max(initial=0) > 5e-5:
+                    viol("lattice|contacts|varying-cell", "compute_contacts(periodic=True) changes by %.3g under a %s" % (np.abs(C[f][okc] - C2[f][okc]).max(), rp["transform"]), rp)
     # ---- a solute in the middle of a rectangular box, the solvent stored in other periodic images after the shift (unwrapped trajectory):
     # compute_neighbors around the solute must not change
     from props.c10 import _brute
